@@ -27,7 +27,7 @@ RULE = ('directed corpus (docstring examples, boundaries) + seeded blocks; every
         'on-high, above, degenerate}; no operator x {equal, substring, superstring, other}; x separators of spaces '
         'and tabs. Inputs outside the documented grammar are run as DONT-CARE and only recorded. '
         'non-trivial = every case; distinct by (value, spec)')
-REQUIRED_CLAUSES = ['concurrent-calls-answer-as-alone', 'documented-keyword-call', 'extra-whitespace-around-spec', 'numeric-op', 'string-op', 'in', 'all-in', 'or', 'range-in', 'no-operator',
+REQUIRED_CLAUSES = ['numeric-value-as-number-object', 'concurrent-calls-answer-as-alone', 'documented-keyword-call', 'extra-whitespace-around-spec', 'numeric-op', 'string-op', 'in', 'all-in', 'or', 'range-in', 'no-operator',
                     'dont-care-recorded']
 ASSUMPTIONS = ['numeric oracle: exact rational comparison (fractions.Fraction built from the generated digit strings); '
                'asserted only for numerals with at most 15 significant digits, where float() is order- and '
@@ -277,8 +277,20 @@ def evaluate(ctx, case):
     if dc:
         dont_care(ctx, case, 'outside-grammar/%s: %s' % (kind, dc), value, spec)
         return
-    got, exc = call_match(value, spec)
-    ctx.case((value, spec))
+    vobj = value
+    if kind == 'num' and case.get('vtype'):
+        # the value handed over as a number object instead of its text: "numeric comparison" is the comparison of the
+        # numbers - the float, Decimal or Fraction 3.7 is above 3 like the text '3.7' is
+        import decimal
+        import fractions
+        try:
+            vobj = {'float': float, 'Decimal': decimal.Decimal, 'Fraction': fractions.Fraction,
+                    'int': lambda t: int(t) if float(t) == int(float(t)) and '.' not in t else float(t)}[case['vtype']](value.strip())
+            ctx.clause('numeric-value-as-number-object')
+        except (ValueError, decimal.InvalidOperation):
+            vobj = value
+    got, exc = call_match(vobj, spec)
+    ctx.case((value, spec, case.get('vtype')))
     ctx.clause({'num': 'numeric-op', 'str': 'string-op', 'in': 'in', 'allin': 'all-in', 'or': 'or',
                 'range': 'range-in', 'none': 'no-operator'}[kind])
     opname = tokens[0] if kind != 'none' else '(none)'
@@ -314,6 +326,9 @@ def gen_word(rng, lo=1, hi=8, pool=None):
         if pool is None and rng.random() < 0.04:
             # words that begin like an operator without being one ('s=foo', 's', '<inx', 's>'-free forms)
             w = rng.choice(['s=', 's', '<i', '<o', '<all', 's=s', 'ss=']) + w
+        if pool is None and rng.random() < 0.04:
+            # operator text INSIDE a word (a word is a whole run of non-blank characters): x<or>y, tail<or>, a<in>b, n>=2
+            w = w[:1] + rng.choice(['<or>', '<in>', '<all-in>', '<range-in>', '>=', '==', 's==', '<or>y', '!=', '=']) + w[1:]
         if valid_word(w):
             return w
 
@@ -388,8 +403,11 @@ def gen_num(rng, op, rel):
     n, k = gen_scaled(rng)
     d = gen_delta(rng, k)
     m = n if rel == 'eq' else (n + d if rel == 'lt' else n - d)
-    return dict(kind='num', op=op, a=spell(rng, n, k), b=spell(rng, m, k), seps=gen_seps(rng, 1),
-                sub='adjacent' if (d == 1 and rel != 'eq') else rel)
+    case = dict(kind='num', op=op, a=spell(rng, n, k, canonical=True) if rng.random() < 0.2 else spell(rng, n, k),
+                b=spell(rng, m, k), seps=gen_seps(rng, 1), sub='adjacent' if (d == 1 and rel != 'eq') else rel)
+    if rng.random() < 0.15 and k <= 6:
+        case['vtype'] = rng.choice(['float', 'Decimal', 'Fraction', 'int'])
+    return case
 
 
 def gen_pair(rng):
